@@ -32,7 +32,9 @@ def main():
         ctx.oblige("check machinery ran to completion", False, tb[-800:])
     # safety net: something no longer checks but no violation was produced
     undis = [(n, d) for n, ok, d in ctx.obligations if not ok]
-    if undis and not ctx.violations:
+    kf_classes = {k.get("class") for k in vcommon.known_findings(a.prop)}
+    real = [v for v in ctx.violations if not (v["kf_class"] and v["kf_class"] in kf_classes)]
+    if undis and not real:
         ctx.report(
             "undischarged:" + undis[0][0],
             "obligations no longer check: " + "; ".join(n for n, _ in undis),
